@@ -29,7 +29,7 @@ def build():
     s.item('enum', 'StrStep')
     s.item('struct', 'Builder', rewrites=[('D9', "sink: &'b mut dyn FnMut(StrStep<'_>),", "sink: &'b mut Sink,")])
     s.item('enum', 'State')
-    U.prelude('contracts/short.prelude.rs')
+    U.raw(open(__file__.replace('units/short.py', 'contracts/short.prelude.rs')).read().replace('@@SHARED_STEPS@@', open(__file__.replace('units/short.py', 'contracts/shared.steps.rs')).read()))
     U.raw('''pub mod crate_alias { }
 impl Input {
     pub open spec fn jbit(&self, n: int) -> bool {
@@ -215,11 +215,9 @@ ensures final(self).binv(), final(self).lexed == old(self).lexed, final(self).st
             spec='''
 requires
     self.wf(), old(sink).log@.len() == 0,
-    // shape of the parser's output (assumed: event::process / TopEntryPoint::parse balance assertions; PARSER unit for the token counts):
+    // shape of the parser's output -- proved in the PARSER unit as the postcondition of TopEntryPoint::parse (same predicates, contracts/shared.steps.rs):
     // it starts with Enter, ends with Exit, has no FloatSplit step, and consumes at most the non-trivia tokens of the table
-    output.steps().len() >= 1, output.steps()[0] is Enter, output.steps().last() is Exit,
-    forall|i: int| 0 <= i < output.steps().len() ==> !((#[trigger] output.steps()[i]) is FloatSplit),
-    forall|i: int| 0 <= i < output.steps().len() && (#[trigger] output.steps()[i]) is Token ==> output.steps()[i]->n_input_tokens >= 1,
+    output_shape(output.steps()),
     tok_sum(output.steps()) <= nnt(self, 0),
 ensures
     // the Token steps handed to the sink are exactly the raw tokens [0, q) of the table, consecutively, trivia included ...
